@@ -15,7 +15,7 @@
    critical section contains a channel send, so it is split: [Lock t] acquires resMu, [Deliver t] does
    lookup + send + (deferred) Unlock and is *not enabled* while the send would block.  Environment events
    (a response message arrives, a timer fires, a context is cancelled, a send fails) are unconstrained. *)
-From Coq Require Import List NArith Bool.
+From Coq Require Import List NArith Bool String.
 Import ListNotations.
 Local Open Scope N_scope.
 
@@ -66,7 +66,9 @@ Record req := mkReq {
                             before its timer fired, before it ended and while its context was not cancelled *)
 }.
 
-Inductive tst := TStart | THold | TEnd.
+(* TBad: the handler goroutine of a message that the part of onResponse BEFORE resMu.Lock() will drop (stream read error, malformed
+   envelope, procedure without registered handler, rate limiter error): it never reaches the lookup *)
+Inductive tst := TStart | THold | TEnd | TBad.
 Record thr := mkThr { tmsg : resp; tpc : tst }.
 
 Record state := mkSt {
@@ -120,7 +122,9 @@ Inductive ev :=
 | Dereg (id : N)              (* Lock; delete(resCh, id); Unlock; (drain); return *)
 | Respond (t : N) (r : resp)  (* a response message arrives: handler goroutine t starts *)
 | Lock (t : N)                (* onResponse: mp.resMu.Lock() *)
-| Deliver (t : N).            (* onResponse: lookup; send (may block = not enabled); deferred Unlock *)
+| Deliver (t : N)             (* onResponse: lookup; send (may block = not enabled); deferred Unlock *)
+| RespondBad (t : N) (r : resp) (* a message arrives that is not a well-formed response within the limits: goroutine t starts *)
+| Drop (t : N).               (* onResponse returns early (one of the four pinned early returns): nothing else happens *)
 
 Definition is_timed_out (x : rst) : bool := match x with RTimedOut => true | _ => false end.
 
@@ -243,6 +247,20 @@ Definition step (c : cfg) (s : state) (e : ev) : option state :=
           end
       | _, _ => None
       end
+  | RespondBad t r =>
+      match get (thrs s) t with
+      | Some _ => None
+      | None => Some (mkSt (reqs s) (chans s) (mu s) (set t (mkThr r TBad) (thrs s)) (cancelled s) (r :: emitted s))
+      end
+  | Drop t =>
+      match get (thrs s) t with
+      | Some th =>
+          match tpc th with
+          | TBad => Some (mkSt (reqs s) (chans s) (mu s) (set t (mkThr (tmsg th) TEnd) (thrs s)) (cancelled s) (emitted s))
+          | _ => None
+          end
+      | None => None
+      end
   | Deliver t =>
       match get (thrs s) t with
       | Some th =>
@@ -344,6 +362,21 @@ Definition cfg_of_skel (send onresp : list tok) (retries : N) : option cfg :=
                   (has KDrain (after KCaseTimeout send)) retries)
   | _, _, _ => None
   end.
+
+(* The early returns of onResponse before the lock, as regenerated by translate/reqresp (statement before the if | condition): a
+   message is dropped there exactly when the stream cannot be read, the envelope does not decode, no handler is registered for
+   its procedure, or the rate limiter returns an error. These are the [RespondBad]/[Drop] messages of the model; everything else
+   is a [Respond] and reaches the lookup. *)
+Definition onresp_drops_modelled : list String.string :=
+  ["buf, err := io.ReadAll(s) | err != nil";
+   " | err := newMsg.Decode(buf); err != nil";
+   "_, exist := mp.rpcHandlers[newMsg.Procedure] | !exist";
+   "err = mp.rateLimit.checkLimit(newMsg.Procedure, remoteID, remoteAddr) | err != nil"]%string.
+Definition onreq_drops_modelled : list String.string :=
+  ["buf, err := io.ReadAll(s) | err != nil";
+   " | err := newMsg.Decode(buf); err != nil";
+   "handler, exist := mp.rpcHandlers[newMsg.Procedure] | !exist";
+   "err = mp.rateLimit.checkLimit(newMsg.Procedure, remoteID, remoteAddr) | err != nil"]%string.
 
 (* ---- observation-level helpers used by the correspondence (Corr/C17.v) *)
 
